@@ -89,6 +89,13 @@ CHECKS = {
         note="Trusts the reference comparison in vf/props/c10.py (values compared with ==, bound methods by wrapped function) and the bracket/quote-aware repr scanner; cyclic structures only for repr.",
         ref="DESIGN.md section 4, C10",
     ),
+    "C05": dict(
+        level="exploration",
+        technique="model-based + metamorphic property testing over a class-definition grammar: Hypothesis-generated worlds, states and probes; executable model of the documented helper semantics on abstract states; copy/in-place, assignment/deletion and fold equivalences on replayed replicas",
+        text="For Hypothesis-generated worlds, reachable states and scalar / top-level helper probes in their documented call forms (x _inplace x _if, UNCHANGED / MISSING forms, whole-value and attribute transforms) the abstract state of the result is compared with an independent model of the documentation (prepared value, nested keyword construction / merge, f(old), defaults, invalidation chains), and the library is compared with itself across spellings: copy vs in-place (identical state, receiver returned, copy form leaves the receiver alone), obj.a = v vs with_a(v, _inplace=True), del vs reset_a, update/transform vs folded per-attribute helpers, with_n(k=v) vs with_n(Nested(k=v)), documented no-op forms. Sampled search.",
+        note="Trusts vf/model.py (descriptor-only model; permissive where the documentation is silent: transforms returning MISSING, transforming a missing attribute, preparer on restored defaults) and history replay to build replicas.",
+        ref="DESIGN.md section 4, C05",
+    ),
 }
 
 NOT_YET = "check not built yet in this revision (see DESIGN.md section 9 for the order); nothing is claimed"
